@@ -26,6 +26,18 @@ not running, is not counted, and dropping it later changes nothing.
 One `arrive` of an unchecked caller is clone + `poll_ready` + `call`; one `poll` is one poll of
 the call future. `checks` is ghost: every readiness check with the number of calls really
 running at that step, the limit at that step and the answer.
+
+**An inner service that is not ready at once** (`manual ready h=<h> rdy=<r|p|e>`, `arrive … h=<h> rdy=…`): persistent
+handles (clones that live across operations) are polled for readiness any number of times before they are called. One
+`poll_ready` = the capacity comparison, made **at every poll**, and — only if it passes — the inner service's answer for
+that poll (`r` ready, `p` pending, `e` error). A handle is *ready* (`hready`) exactly when its most recent `poll_ready`
+answered `Ready` and it has not been called since. `polls` is ghost: every poll of a handle with the number of calls
+really running, the limit, the inner answer and the limiter's answer.
+
+**Clones on several OS threads** (`manual thread t=<i> prog=…`, `manual sched s=<tid,…>`): the second half of this file
+is the interleaving model of `call()` / the completion block / the guard at the granularity of the hooked atomic
+operations (`in_flight.fetch_add` at admission, `fetch_sub` when the guard is dropped, the loads of `poll_ready`, the
+`current_limit` mirror, the algorithm's own atomics through `TR.Limit.tstep`).
 -/
 namespace TR.Adaptive
 open TR.Limit (Cfg Cells FOp)
@@ -36,6 +48,45 @@ structure Check where
   limit   : Nat
   refused : Bool
 deriving DecidableEq, Repr
+
+/-- the inner service's answer to one `poll_ready` (scripted per poll) -/
+inductive Ans
+  | r
+  | p
+  | e
+deriving DecidableEq, Repr, Inhabited
+
+/-- what one `poll_ready` of the limiter answered -/
+inductive Answer
+  | ready
+  | refused        -- `Pending` because `in_flight >= limit` (the task is woken at once)
+  | pending        -- capacity was there, the inner service is not ready
+  | error          -- capacity was there, the inner service failed
+deriving DecidableEq, Repr, Inhabited
+
+def Answer.render : Answer → String
+  | .ready => "ready"
+  | .refused => "refused"
+  | .pending => "pending"
+  | .error => "error"
+
+/-- ghost record of one `poll_ready` on a persistent handle -/
+structure Poll where
+  handle  : Nat
+  running : Nat          -- calls really in flight at that step
+  limit   : Nat
+  inner   : Ans          -- what the inner service answers to this poll if it is asked
+  answer  : Answer
+deriving DecidableEq, Repr
+
+/-- what a thread does with its clone of the service (`manual thread … prog=`) -/
+inductive TOp
+  | acquire (o : Out)     -- `A`/`E`/`P`: `poll_ready` + `call` of a request whose inner call ends with `o` at its first poll
+  | finishCall            -- `C`: poll the oldest call future this thread holds (completes: feedback; panics: guard only)
+  | dropCall              -- `D`: drop the oldest call future unpolled
+  | readInFlight          -- `I`: `in_flight()`
+  | fb (op : FOp)         -- `S<d>`/`F`/`L`: feedback / `limit()` directly on the shared algorithm (as in part A)
+deriving Repr, Inhabited
 
 structure State where
   now      : Nat := 0
@@ -52,6 +103,10 @@ structure State where
   serial   : Nat := 0
   checks   : List Check := []         -- ghost
   log      : List Ev := []            -- ghost: every event so far
+  hready   : List (Nat × Poll) := []  -- persistent handles whose last `poll_ready` answered `Ready` (not called since)
+  polls    : List Poll := []          -- ghost: every `poll_ready` made on a persistent handle
+  cur      : Nat := 0                 -- the service's `current_limit` mirror (dead for admission; stored by `call`/completion)
+  progs    : List (List TOp) := []    -- thread programs of the next `manual sched` round
 deriving Repr
 
 inductive Op
@@ -65,6 +120,10 @@ inductive Op
   | probeInFlight
   | probeLimit
   | probeReady
+  | ready (h : Nat) (a : Ans)     -- `manual ready h= rdy=`: one `poll_ready` on the persistent handle `h`
+  | arriveH (c : Nat) (sc : Step) (keep : Bool) (h : Nat) (a : Ans)   -- `arrive c … h=<h>`: the caller uses handle `h`
+  | thread (t : Nat) (prog : List TOp)
+  | sched (s : List Nat)
 deriving Repr
 
 def emit (s : State) (evs : List Ev) : State := { s with log := s.log ++ evs }
@@ -83,10 +142,12 @@ def startCall (s : State) (c : Nat) (sc : Step) : State :=
   emit { s with inFlight := s.inFlight + 1, running := s.running ++ [c],
                 script := (c, sc) :: s.script, startAt := (c, s.now) :: s.startAt,
                 doneAt := (c, s.now + sc.lat) :: s.doneAt, kOf := (c, s.serial) :: s.kOf,
-                serial := s.serial + 1 } [.innerCall c s.serial]
+                serial := s.serial + 1, cur := s.alg.limit } [.innerCallX c s.serial c true]
 
-def refuse (s : State) (c : Nat) (sc : Step) : State :=
-  emit { s with script := (c, sc) :: s.script } [.result c .notReady]
+def refuseWith (s : State) (c : Nat) (sc : Step) (r : Res) : State :=
+  emit { s with script := (c, sc) :: s.script } [.result c r]
+
+def refuse (s : State) (c : Nat) (sc : Step) : State := refuseWith s c sc .notReady
 
 /-- clone, `poll_ready`, `call` -/
 def arriveFresh (s : State) (c : Nat) (sc : Step) : State :=
@@ -112,7 +173,8 @@ def hold (s : State) (c : Nat) : State :=
 /-- `release c`: a finished call future is finally dropped — nothing is left in it to release -/
 def letGoOp (s : State) (c : Nat) : State := { s with held := s.held.erase c }
 
-def feed (cfg : Cfg) (s : State) (op : FOp) : State := { s with alg := Limit.seqOp cfg s.alg op }
+def feed (cfg : Cfg) (s : State) (op : FOp) : State :=
+  { s with alg := Limit.seqOp cfg s.alg op, cur := (Limit.seqOp cfg s.alg op).limit }
 
 /-- latency measured by the service, in ns -/
 def latencyNs (s : State) (c : Nat) : Nat := (s.now - (lookup s.startAt c).getD 0) * 1000000
@@ -146,6 +208,242 @@ def warmOp (cfg : Cfg) (s : State) (prog : List FOp) : State :=
 def probeReady (s : State) : State :=
   emit (recordCheck s 0) [.probe s!"ready = {if atCapacity s then 0 else 1}"]
 
+/-! ## persistent handles over an inner service that is not ready at once -/
+
+/-- one `poll_ready`: the capacity comparison first — **at every poll** —, then the inner service's answer -/
+def answerOf (s : State) (a : Ans) : Answer :=
+  if atCapacity s then .refused
+  else match a with
+    | .r => .ready
+    | .p => .pending
+    | .e => .error
+
+def mkPoll (s : State) (h : Nat) (a : Ans) : Poll :=
+  { handle := h, running := s.running.length, limit := s.alg.limit, inner := a, answer := answerOf s a }
+
+def eraseKey (l : List (Nat × Poll)) (h : Nat) : List (Nat × Poll) := l.filter fun p => p.1 != h
+
+/-- one `poll_ready` on the persistent handle `h` (created as a clone at its first use): the handle is ready
+afterwards iff this poll answered `Ready` -/
+def pollHandle (s : State) (h : Nat) (a : Ans) : State :=
+  { s with polls := s.polls ++ [mkPoll s h a],
+           hready := if answerOf s a = .ready then (h, mkPoll s h a) :: eraseKey s.hready h else eraseKey s.hready h }
+
+def readyOp (s : State) (h : Nat) (a : Ans) : State :=
+  emit (pollHandle s h a) [.raw s!"ready {h} {(answerOf s a).render}"]
+
+def refusalOf : Answer → Res
+  | .refused => .notReady
+  | .pending => .custom "notready-inner"
+  | _ => .custom "notready-error"
+
+/-- `call` on a handle that is ready: the readiness is used up -/
+def callHandle (s : State) (c : Nat) (sc : Step) (h : Nat) : State :=
+  startCall { s with hready := eraseKey s.hready h } c sc
+
+/-- a caller using the persistent handle `h`: `call` if the handle is ready, otherwise one `poll_ready` first -/
+def arriveHandle (s : State) (c : Nat) (sc : Step) (h : Nat) (a : Ans) : State :=
+  if (lookup s.hready h).isSome then callHandle s c sc h
+  else if answerOf s a = .ready then callHandle (pollHandle s h a) c sc h
+  else refuseWith (pollHandle s h a) c sc (refusalOf (answerOf s a))
+
+/-! ## clones of the service on several threads — one model step per yield point
+
+Every thread owns a clone. A *turn* of the schedule lets one thread run from the yield point it is blocked at to
+its next one. The yield points are the hooked atomic operations of `service.rs` / the algorithm, plus one at the
+beginning of every thread operation (the harness calls `yield_point()` there, so that what a thread does before
+its first atomic — polling the inner future, dropping it — happens in a turn of its own).
+
+| code | turns |
+|---|---|
+| `poll_ready` | load `algorithm.limit()`; load `in_flight`, compare (refused: the operation ends) |
+| `call` | `in_flight.fetch_add(1)` (+ guard, `inner.call`); load `algorithm.limit()`; load `current_limit`; store it if different |
+| guard drop | `in_flight.fetch_sub(1)` — **one** read-modify-write |
+| completion block | (inner ready) guard drop; `record_success(0)` / `record_failure()` (`TR.Limit.tstep`); load limit; load / store `current_limit` |
+| future dropped unpolled | (inner future dropped) guard drop |
+| inner panic | guard drop while unwinding; nothing else |
+-/
+
+structure TCall where
+  c : Nat
+  k : Nat
+  o : Out
+deriving Repr, Inhabited, DecidableEq
+
+/-- where a thread stands inside its current operation: the name of the NEXT yield point -/
+inductive TPh
+  | idle                               -- the yield at the beginning of the next operation
+  | rdLimit (o : Out)                  -- `poll_ready`: load `algorithm.limit()`
+  | rdInFlight (o : Out) (lim : Nat)   -- `poll_ready`: load `in_flight`, compare with `lim`
+  | enter (o : Out)                    -- `call`: `in_flight.fetch_add(1)`
+  | syncLim                            -- load `algorithm.limit()` for the mirror
+  | syncCur (l : Nat)                  -- load `current_limit`
+  | syncSt (l : Nat)                   -- store `current_limit`
+  | rel (polled : Bool)                -- guard drop of the oldest call: `in_flight.fetch_sub(1)`
+  | feed (lt : Limit.Thread) (sync : Bool)   -- inside the algorithm: `lt`'s next atomic
+  | rdIF                               -- `in_flight()`
+deriving Repr, Inhabited
+
+def TPh.isIdle : TPh → Bool
+  | .idle => true
+  | _ => false
+
+structure TThread where
+  prog  : List TOp := []
+  ph    : TPh := .idle
+  calls : List TCall := []       -- the call futures this thread holds = the live `InFlightGuard`s it owns (oldest first)
+  nacq  : Nat := 0
+  out   : List String := []
+deriving Repr, Inhabited
+
+/-- the atomics all clones share (+ serial numbers and the event log of the scripted inner service) -/
+structure Shared where
+  alg      : Cells
+  inFlight : Nat := 0
+  cur      : Nat := 0
+  serial   : Nat := 0
+  log      : List Ev := []
+deriving Repr
+
+structure TState where
+  sh      : Shared
+  threads : List TThread := []
+deriving Repr
+
+def tdone (th : TThread) : TThread := { th with prog := th.prog.tail, ph := .idle }
+def callerId (tid n : Nat) : Nat := 1000 * (tid + 1) + n
+def pushLog (sh : Shared) (e : Ev) : Shared := { sh with log := sh.log ++ [e] }
+
+/-- the turn at the beginning of operation `op`: thread-local work up to the first atomic -/
+def beginT (sh : Shared) (th : TThread) (op : TOp) : Shared × TThread :=
+  match op with
+  | .acquire o => (sh, { th with ph := .rdLimit o })
+  | .finishCall =>
+      match th.calls with
+      | [] => (sh, tdone th)
+      | cl :: _ =>
+          if cl.o = .never then (sh, tdone th)
+          else (pushLog sh (.innerDone cl.c cl.k cl.o), { th with ph := .rel true })
+  | .dropCall =>
+      match th.calls with
+      | [] => (sh, tdone th)
+      | cl :: _ => (pushLog sh (.innerDrop cl.c cl.k), { th with ph := .rel false })
+  | .readInFlight => (sh, { th with ph := .rdIF })
+  | .fb op => (sh, { th with ph := .feed { prog := [op] } false })
+
+/-- after the guard is gone: feedback for a call that completed with a value, nothing otherwise -/
+def afterRel (th : TThread) (polled : Bool) (o : Out) : TThread :=
+  if polled then
+    match o with
+    | .ok => { th with ph := .feed { prog := [.succ 0] } true }
+    | .err _ => { th with ph := .feed { prog := [.fail] } true }
+    | _ => tdone th
+  else tdone th
+
+/-- the guard of the oldest call is dropped: ONE atomic decrement -/
+def relStep (sh : Shared) (th : TThread) (polled : Bool) : Shared × TThread :=
+  match th.calls with
+  | [] => (sh, tdone th)
+  | cl :: rest => ({ sh with inFlight := sh.inFlight - 1 }, afterRel { th with calls := rest } polled cl.o)
+
+def feedStep (cfg : Cfg) (sh : Shared) (th : TThread) (lt : Limit.Thread) (sync : Bool) : Shared × TThread :=
+  let r := Limit.tstep cfg sh.alg lt
+  if r.2.prog.isEmpty then
+    ({ sh with alg := r.1 },
+     if sync then { th with ph := .syncLim } else tdone { th with out := th.out ++ r.2.out.map toString })
+  else ({ sh with alg := r.1 }, { th with ph := .feed r.2 sync })
+
+/-- `call()`: the counter goes up, the guard exists, the inner call is made — one turn -/
+def enterStep (sh : Shared) (tid : Nat) (th : TThread) (o : Out) : Shared × TThread :=
+  ({ sh with inFlight := sh.inFlight + 1, serial := sh.serial + 1,
+             log := sh.log ++ [.innerCallX (callerId tid th.nacq) sh.serial (callerId tid th.nacq) true] },
+   { th with calls := th.calls ++ [{ c := callerId tid th.nacq, k := sh.serial, o := o }], nacq := th.nacq + 1, ph := .syncLim })
+
+/-- one turn of a thread that is not finished -/
+def tstepT (cfg : Cfg) (sh : Shared) (tid : Nat) (th : TThread) : Shared × TThread :=
+  match th.ph with
+  | .idle =>
+      match th.prog with
+      | [] => (sh, th)
+      | op :: _ => beginT sh th op
+  | .rdLimit o => (sh, { th with ph := .rdInFlight o sh.alg.limit })
+  | .rdInFlight o lim =>
+      if sh.inFlight ≥ lim then (sh, tdone { th with out := th.out ++ ["x"] }) else (sh, { th with ph := .enter o })
+  | .enter o => enterStep sh tid th o
+  | .syncLim => (sh, { th with ph := .syncCur sh.alg.limit })
+  | .syncCur l => if l = sh.cur then (sh, tdone th) else (sh, { th with ph := .syncSt l })
+  | .syncSt l => ({ sh with cur := l }, tdone th)
+  | .rel polled => relStep sh th polled
+  | .feed lt sync => feedStep cfg sh th lt sync
+  | .rdIF => (sh, tdone { th with out := th.out ++ [toString sh.inFlight] })
+
+/-- one turn of the schedule, given to thread `tid` -/
+def stepTT (cfg : Cfg) (s : TState) (tid : Nat) : TState :=
+  match s.threads[tid]? with
+  | none => { s with sh := pushLog s.sh (.raw s!"skip {tid}") }
+  | some th =>
+      if th.prog.isEmpty then { s with sh := pushLog s.sh (.raw s!"skip {tid}") }
+      else
+        let r := tstepT cfg (pushLog s.sh (.raw s!"step {tid}")) tid th
+        { sh := r.1, threads := s.threads.set tid r.2 }
+
+def runSchedT (cfg : Cfg) (s : TState) (sched : List Nat) : TState := sched.foldl (stepTT cfg) s
+
+def firstLiveT (ths : List TThread) : Option Nat := ths.findIdx? (fun th => !th.prog.isEmpty)
+
+/-- after the schedule: the remaining threads run to completion, lowest id first -/
+def drainT (cfg : Cfg) : Nat → TState → TState
+  | 0, s => s
+  | n + 1, s =>
+      match firstLiveT s.threads with
+      | none => s
+      | some t => drainT cfg n (stepTT cfg s t)
+
+def drainFuelT (s : TState) : Nat := 24 * (s.threads.map (fun th => th.prog.length)).sum + 24
+
+def execT (cfg : Cfg) (s : TState) (sched : List Nat) : TState :=
+  let s' := runSchedT cfg s sched
+  drainT cfg (drainFuelT s') s'
+
+def freshThreads (progs : List (List TOp)) : List TThread := progs.map fun p => { prog := p }
+
+/-- the shared atomics of a limiter nobody has used yet -/
+def freshShared (cfg : Cfg) : Shared := { alg := Limit.initCells cfg, cur := (Limit.initCells cfg).limit }
+
+/-- the live guards: call futures held by the threads -/
+def liveGuards (ths : List TThread) : Nat := (ths.map fun th => th.calls.length).sum
+
+/-! ### a round of threads inside a history of the service -/
+
+def renderStrs (l : List String) : String := if l.isEmpty then "none" else ",".intercalate l
+
+/-- what a thread still holds when its program ends is dropped (on the main thread, after the round) -/
+def dropLeft (sh : Shared) (cs : List TCall) : Shared :=
+  cs.foldl (fun sh cl => { sh with inFlight := sh.inFlight - 1, log := sh.log ++ [.innerDrop cl.c cl.k] }) sh
+
+def cleanup (sh : Shared) : Nat → List TThread → Shared
+  | _, [] => sh
+  | i, th :: tl => cleanup (dropLeft (pushLog sh (.raw s!"th {i} {renderStrs th.out}")) th.calls) (i + 1) tl
+
+def settled (ths : List TThread) : Bool := ths.all fun th => th.prog.isEmpty && th.ph.isIdle
+
+def tinit (s : State) : TState :=
+  { sh := { alg := s.alg, inFlight := s.inFlight, cur := s.cur, serial := s.serial, log := s.log },
+    threads := freshThreads s.progs }
+
+/-- `manual sched`: the thread programs run under the schedule on clones of this service (the calls of the
+single-threaded callers stay in flight meanwhile); afterwards whatever the threads still hold is dropped -/
+def schedOp (cfg : Cfg) (s : State) (sch : List Nat) : State :=
+  let r := execT cfg (tinit s) sch
+  if settled r.threads then
+    let sh := cleanup r.sh 0 r.threads
+    { s with alg := sh.alg, inFlight := sh.inFlight, cur := sh.cur, serial := sh.serial,
+             log := sh.log ++ [.raw s!"limit {sh.alg.limit}"], progs := [] }
+  else emit { s with progs := [] } [.raw "sched-unsettled"]
+
+def setProgT (l : List (List TOp)) (t : Nat) (p : List TOp) : List (List TOp) :=
+  (l ++ List.replicate (t + 1 - l.length) []).set t p
+
 def stepS (cfg : Cfg) (s : State) (op : Op) : State :=
   match op with
   | .adv ms => { s with now := s.now + ms }
@@ -161,17 +459,48 @@ def stepS (cfg : Cfg) (s : State) (op : Op) : State :=
   | .probeInFlight => emit s [.probe s!"in_flight = {s.inFlight}"]
   | .probeLimit => emit s [.probe s!"limit = {s.alg.limit}"]
   | .probeReady => probeReady s
+  | .ready h a => readyOp s h a
+  | .arriveH c sc keep h a =>
+      if known s c then s
+      else if c ∈ s.checked then arriveChecked (noteKeep s c keep) c sc
+      else arriveHandle (noteKeep s c keep) c sc h a
+  | .thread t prog => { s with progs := setProgT s.progs t prog }
+  | .sched sch => schedOp cfg s sch
 
-def init (cfg : Cfg) : State := { alg := Limit.initCells cfg }
+def init (cfg : Cfg) : State := { alg := Limit.initCells cfg, cur := (Limit.initCells cfg).limit }
 def run (cfg : Cfg) (ops : List Op) : State := ops.foldl (stepS cfg) (init cfg)
 
 /-! ## line protocol -/
 
+def parseAns (s : String) : Ans := if s = "p" then .p else if s = "e" then .e else .r
+
+def parseTProg : List Char → List TOp
+  | [] => []
+  | 'A' :: tl => .acquire .ok :: parseTProg tl
+  | 'E' :: tl => .acquire (.err 1) :: parseTProg tl
+  | 'P' :: tl => .acquire .panic :: parseTProg tl
+  | 'C' :: tl => .finishCall :: parseTProg tl
+  | 'D' :: tl => .dropCall :: parseTProg tl
+  | 'I' :: tl => .readInFlight :: parseTProg tl
+  | 'S' :: d :: tl => .fb (.succ (Limit.latNs (d.toNat - 48))) :: parseTProg tl
+  | 'F' :: tl => .fb .fail :: parseTProg tl
+  | 'L' :: tl => .fb .read :: parseTProg tl
+  | _ :: tl => parseTProg tl
+
 def parseOp (ws : List String) : Option Op :=
   match ws with
   | "arrive" :: c :: rest =>
-      let plan := planOf (parseKv rest)
-      some (.arrive (c.toNat?.getD 0) (plan.headD { lat := 0, out := .ok }) ((parseKv rest).nat "keep" 0 == 1))
+      let kv := parseKv rest
+      let plan := planOf kv
+      if kv.nat "h" 0 = 0 then
+        some (.arrive (c.toNat?.getD 0) (plan.headD { lat := 0, out := .ok }) (kv.nat "keep" 0 == 1))
+      else
+        some (.arriveH (c.toNat?.getD 0) (plan.headD { lat := 0, out := .ok }) (kv.nat "keep" 0 == 1)
+                (kv.nat "h" 0) (parseAns (kv.str "rdy" "r")))
+  | "manual" :: "ready" :: rest => some (.ready ((parseKv rest).nat "h" 0) (parseAns ((parseKv rest).str "rdy" "r")))
+  | "manual" :: "thread" :: rest =>
+      some (.thread ((parseKv rest).nat "t" 0) (parseTProg ((parseKv rest).str "prog" "").toList))
+  | "manual" :: "sched" :: rest => some (.sched (Limit.parseSched ((parseKv rest).str "s" "")))
   | "release" :: c :: _ => some (.letGo (c.toNat?.getD 0))
   | "poll" :: c :: _ => some (.poll (c.toNat?.getD 0))
   | "drop" :: c :: _ => some (.drop (c.toNat?.getD 0))
